@@ -131,7 +131,8 @@ def generate(rng, tier):
             for c in cuts + [len(lines)]:
                 chunks.append([L(x) for x in lines[prev:c]]); prev = c
             servers.append(chunks)
-        cases.append({"query": L(q), "servers": servers, "order": [rng.randrange(nserv) for _ in range(20)], "_meta": meta})
+        cases.append({"query": L(q), "servers": servers, "order": [rng.randrange(nserv) for _ in range(20)], "_meta": meta,
+                      "reports": i % 2 == 0})      # the cumulative client prints interim results while partial results keep arriving
     return cases
 
 
